@@ -46,6 +46,7 @@ func verifyFunction(ld *Loaded, sp *Specs, key string) (out *FuncVC) {
 	viewOf = map[string]*Sym{}
 	loopHeadState = map[*LoopInfo]*State{}
 	specSigned = map[*Sym]bool{}
+	specUnsigned = map[*Sym]bool{}
 	recOf = map[*Sym]*RecType{}
 	x := &Exec{ld: ld, sp: sp, vc: vc, usedFns: map[string]bool{}, tids: map[string]int{}, contract: ct, callOrd: map[string]int{}, report: rep, topFn: fn, closures: map[string]*closureInfo{}, globals: map[*ssa.Global]*Term{}}
 	x.hp = &Heaper{vc: vc, sp: sp}
@@ -117,7 +118,7 @@ func verifyFunction(ld *Loaded, sp *Specs, key string) (out *FuncVC) {
 		if rt.Len() == 1 {
 			penv.vars["result"] = e.res[0]
 		}
-		if rt.Len() > 0 && isErrorType(rt.At(rt.Len()-1).Type()) {
+		if _, clash := fr.params["err"]; !clash && rt.Len() > 0 && isErrorType(rt.At(rt.Len()-1).Type()) {
 			penv.vars["err"] = e.res[rt.Len()-1]
 		}
 		for j, c := range ct.Ensures {
